@@ -208,7 +208,15 @@ TReq ==
   LET ev  == Log[l]
       cfg == cfgs[ev.ifc]
       st  == sts[ev.ifc]
-      req == [RxDecode(ev.b, ev.fill, ev.len, cfg.mtu) EXCEPT !.grew = IF ev.live > ev.live0 THEN "yes" ELSE "no"]
+      \* above the capacity floor a probe may or may not be recorded (freedom CapAnyAtLeast300); which of the two
+      \* happened is read off the record itself (observation-following: the monitor does not branch per frame).
+      \* Only when the snapshot could not hold the whole record does the allocation ledger decide.
+      rq0 == RxDecode(ev.b, ev.fill, ev.len, cfg.mtu)
+      req == [rq0 EXCEPT !.grew =
+                IF rq0.op \notin {OpProbe, OpTrain} \/ ev.st.has = 0 \/ ev.st.nlist + 1 < ObsCapFloor THEN "?"   \* not consulted below the floor
+                ELSE IF ev.st.nlist = Len(ev.st.see)
+                THEN (IF \E i \in 1..Len(ev.st.see) : ev.st.see[i] = rq0.rs \o rq0.es \o rq0.ed THEN "yes" ELSE "no")
+                ELSE IF ev.live > ev.live0 THEN "yes" ELSE "no"]
       out == OutOf(ev, cfg)
   IN /\ ev.e = "req"
      /\ (Chk("EQ") /\ ev.eq = 1) => TxBytes(ev.out) = TxBytes(Log[l - 1].out)
